@@ -35,8 +35,9 @@
        trajectories[timestamp, rig] = compose([rig_from_sensor, sensor_from_world]).
    KeyError (a job whose entry has vanished) is an explicit outcome ([None] of the job functions); PRigs
    shows it cannot happen on well-formed dicts.
-   rigs_remove / rigs_recover (253-267, 307-325) are deepcopy + the in-place function: the model is pure,
-   so they are the same functions; that the arguments are left alone is checked by the harness (snapshots).
+   rigs_remove / rigs_recover (253-267, 307-325) are deepcopy + the in-place function: the model is pure, so
+   they are the in-place functions applied to [deepcopy_traj T] (see there: the copy loses empty timestamps);
+   that the arguments are left alone is checked by the harness (snapshots).
 
    NOT MODELLED: the float rounding of compose/inverse (C05's tolerance applies), PoseTransform objects with
    r or t None and zero quaternions (ZeroDivisionError inside compose; outside the quantifier -- [check_case]
@@ -279,6 +280,13 @@ Definition inv_x (p : pose) : pose :=
 Definition remove_x := remove_inplace pose comp_x.
 Definition recover_x := recover_inplace pose comp_x inv_x.
 
+(* copy.deepcopy(trajectories), the first step of rigs_remove / rigs_recover: the copy is rebuilt through
+   Trajectories.__setitem__(timestamp, dict), which does not keep a timestamp without poses (repo commit "assigning
+   an empty dict to a timestamp of Trajectories / Records removes the timestamp").  So the copying variants run the
+   in-place function on the trajectories WITHOUT its empty timestamps; with none (the quantifier) it is the identity
+   (PRigs.deepcopy_traj_id). *)
+Definition deepcopy_traj {P} (T : traj P) : traj P := List.filter (fun tm => negb (is_nil (snd tm))) T.
+
 (* ------------------------------------------------------------------ correspondence *)
 Inductive exc := ENone | ERuntime | EKey | EOther.
 Definition exc_eqb (a b : exc) : bool :=
@@ -343,13 +351,13 @@ Definition check_case (c : case) : bool :=
   (* domain of the model: real dicts, no zero quaternion *)
   wf2b (c_rigs c) && wf2b (c_traj c) && all_poses nonzero (c_rigs c) && all_poses nonzero (c_traj c) &&
   o_pure c &&
-  (let m := remove_x max_depth (c_rigs c) (c_traj c) in
-   agree_copy m (o_remove c) && agree_inplace m (o_remove_ip c)) &&
+  agree_copy (remove_x max_depth (c_rigs c) (deepcopy_traj (c_traj c))) (o_remove c) &&
+  agree_inplace (remove_x max_depth (c_rigs c) (c_traj c)) (o_remove_ip c) &&
   match c_rec_in c, o_recover c, o_recover_ip c with
   | Some U, Some oc, Some oi =>
       wf2b U && all_poses nonzero U &&
-      (let m := recover_x max_depth (c_rigs c) (c_masters c) U in
-       agree_copy m oc && agree_inplace m oi)
+      agree_copy (recover_x max_depth (c_rigs c) (c_masters c) (deepcopy_traj U)) oc &&
+      agree_inplace (recover_x max_depth (c_rigs c) (c_masters c) U) oi
   | None, None, None => true
   | _, _, _ => false
   end.
